@@ -5656,8 +5656,10 @@ pub fn initialize(env: &mut Env) {
             Obj::Seq(Seq::Bytes(b)) => {
                 let mut gz = GzDecoder::new(&b[..]);
                 let mut s = Vec::new();
-                gz.read_to_end(&mut s).expect("what");
-                Ok(Obj::Seq(Seq::Bytes(Rc::new(s))))
+                match gz.read_to_end(&mut s) {
+                    Ok(_) => Ok(Obj::Seq(Seq::Bytes(Rc::new(s)))),
+                    Err(e) => Err(NErr::io_error(format!("decompress failed: {}", e))),
+                }
             }
             a => Err(NErr::argument_error_1(&a)),
         },
